@@ -625,8 +625,8 @@ def c07(run):
                 "histories; thorough: all, plus prefixes of 3 by TLC simulation); plus long seeded random histories "
                 "(60-150 calls on one manager); non-trivial = distinct history with >= 8 constructor calls")
     run.assumptions = ["identities are addresses of the returned &'static RE, renumbered 1,2,3,... by the harness",
-                       "language independence of history is checked on the nullable flag, on membership of 17 words and "
-                       "on exact emptiness per history (the exact product check of C01 also runs on dirty managers)"]
+                       "language independence of history: nullable flag, membership of 17 words, exact emptiness, and (fresh-"
+                       "manager histories) the exact product of the target's derivative graph with the residual automaton"]
     scen = os.path.join(run.workdir, "manager_scen.ndjson")
     full = run.tier == "thorough"
     run.generate("MC_Manager", "MC_Manager.cfg", scen, timeout=1200,
@@ -650,6 +650,8 @@ def c07(run):
             "complement": lambda r: any(e.get("api") in ("complement", "re_comp") for e in r.get("events", []))}
     run.validate("manager_hist", os.path.join(out, "manager_hist.ndjson"), "Trace_Manager", "Trace_Manager.cfg",
                  ["C07:"], workers=workers(run), nontrivial=lambda r: nmk(r) >= 8, need=need, timeout=3000, heap="10g")
+    run.validate("manager_products", os.path.join(out, "manager_products.ndjson"), "Trace_Product", "Trace_Product.cfg",
+                 ["C07:", "C01:nullable"], workers=workers(run), nontrivial=_depth_ge1, timeout=3000)
     run.validate("manager_random", os.path.join(out2, "manager_random.ndjson"), "Trace_Manager", "Trace_Manager.cfg",
                  ["C07:"], workers=workers(run), nontrivial=lambda r: nmk(r) >= 8, timeout=3000)
     run.extra["driver"] = [info, info2]
